@@ -134,6 +134,8 @@ type Exec struct {
 	nameCount map[string]int
 	neutralMemo map[*types.Func]int
 	specs    map[string]*specInfo
+	lastIterPos string
+	lastIterDom Term
 	pendingHeapNames map[string]bool
 	pendingPos token.Pos
 	heapSorts map[string]string
@@ -215,7 +217,7 @@ func (e *Exec) relLine(pos token.Pos) string {
 
 func (e *Exec) newPC(st *State, cond Term) Term {
 	c := And(st.pc, cond)
-	if c.S == "true" || c.S == "false" || len(c.S) < 40 {
+	if c.S == "true" || c.S == "false" || len(c.S) < 40 || e.binders > 0 {
 		return c
 	}
 	pc := e.sc.Fresh("pc", SBool)
@@ -270,7 +272,7 @@ func (e *Exec) mergeVal(c Term, a, b Val, hint string) Val {
 		return a
 	}
 	t := Ite(c, a.T, b.T)
-	if len(t.S) > 60 {
+	if len(t.S) > 60 && e.binders == 0 {
 		f := e.sc.Fresh(hint, a.T.Sort)
 		e.sc.Assert(Eq(f, t))
 		t = f
@@ -334,7 +336,7 @@ func (e *Exec) merge2(a, b *State) *State {
 		}
 	}
 	pc := Or(a.pc, b.pc)
-	if len(pc.S) > 40 {
+	if len(pc.S) > 40 && e.binders == 0 {
 		f := e.sc.Fresh("pcj", SBool)
 		e.sc.Assert(Eq(f, pc))
 		pc = f
@@ -1047,7 +1049,18 @@ func (e *Exec) assignedIn(nodes ...ast.Node) (map[types.Object]bool, bool) {
 	var visit func(n ast.Node)
 	root := func(x ast.Expr) {
 		// find the root identifier of an lvalue
-		through := false
+		// The first reference crossed (from the assignment target inwards) is the heap that is written;
+		// if none is crossed the assignment is to a local variable.
+		wholeHeap := func(name, sort string) {
+			if e.lastHeapNames == nil {
+				e.lastHeapNames = map[string]bool{}
+			}
+			if e.heapSorts == nil {
+				e.heapSorts = map[string]string{}
+			}
+			e.lastHeapNames[name] = true
+			e.heapSorts[name] = sort
+		}
 		for {
 			switch y := ast.Unparen(x).(type) {
 			case *ast.Ident:
@@ -1056,32 +1069,42 @@ func (e *Exec) assignedIn(nodes ...ast.Node) (map[types.Object]bool, bool) {
 					obj = info.Defs[y]
 				}
 				if obj != nil {
-					if through {
-						heapW = true
-					}
-					if _, isMap := obj.Type().Underlying().(*types.Map); isMap {
-						heapW = true
-					}
 					out[obj] = true
 				}
 				return
 			case *ast.SelectorExpr:
 				if t := info.TypeOf(y.X); t != nil {
-					if _, ok := t.Underlying().(*types.Pointer); ok {
-						through = true
+					if pt, ok := t.Underlying().(*types.Pointer); ok {
+						n, s := e.ptrHeap(pt.Elem())
+						wholeHeap(n, s)
+						return
 					}
 				}
 				x = y.X
 			case *ast.IndexExpr:
 				if t := info.TypeOf(y.X); t != nil {
-					if _, ok := t.Underlying().(*types.Map); ok {
-						through = true
+					if mt, ok := t.Underlying().(*types.Map); ok {
+						n, s := e.mapHeap(mt)
+						wholeHeap(n, s)
+						return
+					}
+					if pt, ok := t.Underlying().(*types.Pointer); ok {
+						n, s := e.ptrHeap(pt.Elem())
+						wholeHeap(n, s)
+						return
 					}
 				}
 				x = y.X
 			case *ast.StarExpr:
-				through = true
-				x = y.X
+				if t := info.TypeOf(y.X); t != nil {
+					if pt, ok := t.Underlying().(*types.Pointer); ok {
+						n, s := e.ptrHeap(pt.Elem())
+						wholeHeap(n, s)
+						return
+					}
+				}
+				heapW = true
+				return
 			default:
 				heapW = true
 				return
@@ -1525,6 +1548,8 @@ func (e *Exec) rangeStmt(st *State, s *ast.RangeStmt, label string) {
 	var n Term
 	var elemAt func(st *State, i Term) (k Val, v Val)
 	var seqVal *Val
+	var iterPos string
+	var iterDom Term
 	switch xt := xv.GT.Underlying().(type) {
 	case *types.Slice:
 		n = SlcLen(xv.T)
@@ -1561,6 +1586,7 @@ func (e *Exec) rangeStmt(st *State, s *ast.RangeStmt, label string) {
 		// ghost iteration sequence: distinct keys, exactly the domain
 		keys := e.mapIterSeq(st, xv, xt)
 		seqVal = &keys
+		iterPos, iterDom = e.lastIterPos, e.lastIterDom
 		n = SlcLen(keys.T)
 		mapAtEntry := e.mapValue(st, xv, xt)
 		elemAt = func(st *State, i Term) (Val, Val) {
@@ -1589,7 +1615,15 @@ func (e *Exec) rangeStmt(st *State, s *ast.RangeStmt, label string) {
 		if seqVal != nil {
 			extra["iter"] = *seqVal
 		}
-		return e.loopEnv(st, s.Body.Pos(), extra)
+		env := e.loopEnv(st, s.Body.Pos(), extra)
+		if seqVal != nil {
+			// visited(k): key k of the map has been iterated over already
+			cur := st.vars[idx].T
+			env.visited = func(k Term) Term {
+				return And(Select(iterDom, k), Lt(T(SInt, fmt.Sprintf("(%s %s)", iterPos, k.S)), cur))
+			}
+		}
+		return env
 	}
 	// automatic bounds invariant
 	bound := func(st *State) Term {
